@@ -395,3 +395,260 @@ def r01_15_pipeline(ctx):
         got = flat_low_traces(list(code), L)
         ctx.check(got == want, "R01.15", construct, f"executions differ: only in the reference {sorted(want - got)[:2]}, only in the compiled code {sorted(got - want)[:2]}", comp.where, fact={"executions": len(want), "components": len(code)})
     ctx.require_min("R01.15", 30)
+
+
+# ------------------------------------------------------------------------------------------ whole programs with subroutines
+def ref_build_routine(p, k, brk, cont, labels):
+    """ref_build extended with ("call", name) and ("retsub",)"""
+    kind = p[0]
+    if kind == "call":
+        n = N(sym="callsub " + labels[p[1]], next=k)
+        n.terminal = False
+        n.t = n.f = None
+        setattr_call(n, p[1])
+        return n
+    if kind == "retsub":
+        n = N(sym="retsub", terminal=True)
+        return n
+    if kind == "seq":
+        for x in reversed(p[1]):
+            k = ref_build_routine(x, k, brk, cont, labels)
+        return k
+    if kind == "if":
+        t = ref_build_routine(p[2], k, brk, cont, labels)
+        f = ref_build_routine(p[3], k, brk, cont, labels) if p[3] is not None else k
+        return ref_build(p[1], N(t=t, f=f), brk, cont)
+    if kind == "while":
+        head = N()
+        body = ref_build_routine(p[2], head, k, head, labels)
+        entry = ref_build(p[1], N(t=body, f=k), brk, cont)
+        head.next = entry
+        return entry
+    return ref_build(p, k, brk, cont)
+
+
+CALLS: Dict[int, str] = {}
+
+
+def setattr_call(n: N, name: str):
+    CALLS[id(n)] = name
+
+
+def ref_program_traces(routines, labels, L, cap=300000):
+    entries = {}
+    for name, body in routines.items():
+        tail = N(sym="retsub", terminal=True) if name is not None else END
+        entries[name] = ref_build_routine(body, tail, None, None, labels)
+    out, stack, steps = set(), [(entries[None], (), ())], 0
+    while stack:
+        n, seq, cs = stack.pop()
+        while True:
+            steps += 1
+            if steps > cap:
+                raise AnalysisError("reference program enumeration exceeded its budget")
+            if len(seq) >= L:
+                out.add(seq[:L])
+                break
+            if n is END:
+                out.add(seq + ("<main runs off its end>",))
+                break
+            if n.t is not None or n.f is not None:
+                stack.append((n.f, seq + ("F",), cs))
+                n, seq = n.t, seq + ("T",)
+                continue
+            if n.sym is not None:
+                seq = seq + (n.sym,)
+            if id(n) in CALLS:
+                cs = cs + (n.next,)
+                n = entries[CALLS[id(n)]]
+                continue
+            if n.sym == "retsub":
+                if not cs:
+                    out.add(seq + ("<retsub with an empty call stack>",))
+                    break
+                n, cs = cs[-1], cs[:-1]
+                continue
+            if n.terminal:
+                out.add(seq[:L])
+                break
+            n = n.next
+    return out
+
+
+def flat_program_traces(code, L, cap=300000):
+    def label_text(c):
+        ref = c.attrs.get("label")
+        return ref.attrs.get("label") if isinstance(ref, Sym) else ref
+
+    labels = {}
+    for i, c in enumerate(code):
+        if isinstance(c, Sym) and "TealLabel" in c.attrs.get("$isa", ()):
+            t = label_text(c)
+            if t in labels:
+                return {(f"<label {t} defined twice>",)}
+            labels[t] = i
+    out, stack, steps = set(), [(0, (), ())], 0
+    while stack:
+        pc, seq, cs = stack.pop()
+        while True:
+            steps += 1
+            if steps > cap:
+                raise AnalysisError("compiled program enumeration exceeded its budget")
+            if len(seq) >= L:
+                out.add(seq[:L])
+                break
+            if pc >= len(code):
+                out.add(seq + ("<runs off the end>",))
+                break
+            c = code[pc]
+            if isinstance(c, Sym) and "TealLabel" in c.attrs.get("$isa", ()):
+                # a routine label reached by falling through from the previous routine is an execution of its own kind
+                if pc > 0 and c.attrs.get("comment") is not None:
+                    out.add(seq + (f"<falls through into routine {label_text(c)}>",))
+                    break
+                pc += 1
+                continue
+            if not isinstance(c, OpVal):
+                raise AnalysisError(f"unexpected component {c!r}")
+            if c.op in ("b", "bz", "bnz", "callsub"):
+                a = c.args[0] if c.args else None
+                text = a.attrs.get("label") if isinstance(a, Sym) and "label" in a.attrs else a
+                tgt = labels.get(text) if isinstance(text, str) else None
+                if tgt is None:
+                    out.add(seq + (f"<{c.op} to an undefined label {text!r}>",))
+                    break
+                if c.op == "b":
+                    pc = tgt
+                elif c.op == "bnz":
+                    stack.append((pc + 1, seq + ("F",), cs))
+                    pc, seq = tgt, seq + ("T",)
+                elif c.op == "bz":
+                    stack.append((tgt, seq + ("F",), cs))
+                    pc, seq = pc + 1, seq + ("T",)
+                else:
+                    seq = seq + (f"callsub {text}",)
+                    cs = cs + (pc + 1,)
+                    pc = tgt + 1
+                continue
+            sym = c.args[0] if c.op in ("$push", "$effect") else c.op
+            seq = seq + (sym,)
+            if sym == "retsub":
+                if not cs:
+                    out.add(seq + ("<retsub with an empty call stack>",))
+                    break
+                pc, cs = cs[-1], cs[:-1]
+                continue
+            if sym in ("return_", "err"):
+                out.add(seq[:L])
+                break
+            pc += 1
+    return out
+
+
+def multi_programs():
+    C = lambda n: ("call", n)
+    RS = ("retsub",)
+    fin = ("ret", V(99))
+    return {
+        "main calls s1, s1 calls s2 under a condition": ({None: ("seq", [E(0), C("s1"), fin]), "s1": ("seq", [E(1), ("if", V(1), C("s2"), None), E(2)]), "s2": E(3)}, {"s1": 1, "s2": 2}),
+        "direct recursion": ({None: ("seq", [C("s1"), fin]), "s1": ("seq", [E(1), ("if", V(1), C("s1"), None), E(2)])}, {"s1": 7}),
+        "mutual recursion through a loop": ({None: ("seq", [E(0), C("s1"), E(9), fin]), "s1": ("while", V(1), ("seq", [E(1), C("s2")])), "s2": ("if", V(2), C("s1"), E(3))}, {"s1": 1, "s2": 2}),
+        "ids in the opposite order of first use": ({None: ("seq", [C("s1"), C("s2"), fin]), "s1": E(1), "s2": E(2)}, {"s1": 9, "s2": 3}),
+        "early return inside a loop": ({None: ("seq", [C("s1"), E(9), fin]), "s1": ("seq", [("while", V(1), ("seq", [E(1), ("if", V(2), RS, None)])), E(2)])}, {"s1": 1}),
+        "names that sanitise to the same text": ({None: ("seq", [C("my sub!"), C("mysub"), fin]), "my sub!": E(1), "mysub": ("seq", [E(2), C("my sub!")])}, {"my sub!": 1, "mysub": 2}),
+        "main branches around a call": ({None: ("seq", [("if", V(1), C("s1"), E(5)), ("while", V(2), C("s2")), fin]), "s1": ("if", V(3), E(1), E(2)), "s2": ("seq", [E(3), ("if", V(4), RS, None), E(4)])}, {"s1": 4, "s2": 5}),
+        "subroutine only reachable through another": ({None: ("seq", [C("s1"), fin]), "s1": ("seq", [C("s2"), C("s2")]), "s2": ("seq", [C("s3")]), "s3": E(1)}, {"s1": 3, "s2": 2, "s3": 1}),
+    }
+
+
+def r04_9_whole_program(ctx):
+    import collections
+    import re as _re
+    from sa.astutil import u as _u
+    from sa.minieval import run_function
+
+    ctx.rule("R04.9", "whole programs with subroutines: main and every routine are taken through compileSubroutine, sort_subroutine_blocks (sortBlocks + flattenBlocks), the recursion spill pass, resolveSubroutines and flattenSubroutines - all interpreted - and the combined component list, read by a reference machine with a call stack, has exactly the executions of the reference semantics: every callsub reaches the routine it names (labels: sanitised name + position in id order), branch labels are unique across routines, main does not fall through into a routine, no routine falls through into the next")
+    fns = {n: ctx.model.find_func(n, m) for n, m in (("compileSubroutine", "pyteal.compiler.compiler"), ("sort_subroutine_blocks", "pyteal.compiler.compiler"), ("sortBlocks", "pyteal.compiler.sort"), ("flattenBlocks", "pyteal.compiler.flatten"), ("flattenSubroutines", "pyteal.compiler.flatten"), ("resolveSubroutines", "pyteal.compiler.subroutines"), ("spillLocalSlotsDuringRecursion", "pyteal.compiler.subroutines"), ("findRecursionPoints", "pyteal.compiler.subroutines"), ("graph_search", "pyteal.compiler.subroutines"), ("find_recursive_path", "pyteal.compiler.subroutines"))}
+    ctx.analysed(*[f.fq for f in fns.values()])
+    L = 30
+    for pname, (routines, ids) in multi_programs().items():
+        order = sorted(ids, key=lambda n: ids[n])
+        labels = {n: _re.sub(r"[^A-Za-z0-9]", "", n) + f"_{i}" for i, n in enumerate(order)}
+        CALLS.clear()
+        want = ref_program_traces(routines, labels, L)
+        B = Builder(ctx, "list")
+        W = B.W
+        W.real_blocks = True
+        W.objs.real_classes |= {"LabelReference", "TealLabel"}
+        subs = {}
+        for n in ids:
+            subs[n] = Sym(f"sub:{n}", attrs={"id": ids[n], "by_ref_args": set(), "return_type": W.TT.attrs["none"], "has_abi_output": False, "$isa": {"SubroutineDefinition"}}, methods={"name": (lambda n=n: n), "argument_count": lambda: 0})
+
+        def mk(p):
+            if p[0] == "call":
+                s_ = subs[p[1]]
+                c = Sym(f"expr:call {p[1]}", attrs={"$isa": {"Expr"}, "trace": None})
+
+                def teal(options, s_=s_):
+                    b = W.objs.construct("TealSimpleBlock", [[OpVal("callsub", [s_])]], {})
+                    return (b, b)
+
+                c.methods.update({"__teal__": teal, "type_of": lambda: W.TT.attrs["none"], "has_return": lambda: False})
+                return c
+            if p[0] == "retsub":
+                return W.construct("Return", [])
+            if p[0] == "seq":
+                return W.construct("Seq", [[mk(x) for x in p[1]]])
+            if p[0] == "if":
+                return W.construct("If", [B.mk(p[1]), mk(p[2])] + ([mk(p[3])] if p[3] is not None else []))
+            if p[0] == "while":
+                return W.construct("While", [B.mk(p[1])]).methods["Do"](mk(p[2]))
+            return B.mk(p)
+
+        construct = f"program[{pname}]"
+
+        def extra(e, me):
+            t = _u(e)
+            if t in fns and not isinstance(e, ast_Call):
+                return lambda *a, **k: me.call_def(fns[t].node, list(a), dict(k), {})
+            if t == "defaultdict":
+                return collections.defaultdict
+            if t == "OrderedDict":
+                return dict
+            if t == "re":
+                return _re
+            raise Unknown()
+
+        def setup(me):
+            W.me = me
+            W.objs.me = me
+            me.isinstance_hook = lambda v, cname: ((cname.split(".")[-1] in v.attrs["$isa"]) if isinstance(v, Sym) and "$isa" in v.attrs else (False if isinstance(v, OpVal) and cname.split(".")[-1] == "TealLabel" else None))
+
+        def call(fname, args):
+            return run_function(fns[fname].node, args, W.oracle(extra), fns[fname].fq, permissive=True, setup=setup, resolver=W.objs.resolver)[0]
+
+        try:
+            for n, body in routines.items():
+                if n is None:
+                    continue
+                obj = mk(body)
+                decl = Sym(f"decl:{n}", attrs={"$isa": {"Expr", "SubroutineDeclaration"}, "subroutine": subs[n], "deferred_expr": None, "trace": None}, methods={"__teal__": obj.methods["__teal__"], "has_return": obj.methods["has_return"], "type_of": obj.methods["type_of"]})
+                subs[n].methods["get_declaration_by_option"] = (lambda decl: lambda fp: decl)(decl)
+            main = mk(routines[None])
+            starts, ends, graph = {}, {}, {}
+            call("compileSubroutine", {"ast": main, "options": B.options, "subroutineGraph": graph, "subroutine_start_blocks": starts, "subroutine_end_blocks": ends})
+            mapping = call("sort_subroutine_blocks", {"subroutine_start_blocks": starts, "subroutine_end_blocks": ends})
+            call("spillLocalSlotsDuringRecursion", {"version": 8, "subroutineMapping": mapping, "subroutineGraph": graph, "localSlots": {k: set() for k in mapping}})
+            lab = call("resolveSubroutines", {"subroutineMapping": mapping})
+            code = call("flattenSubroutines", {"subroutineMapping": mapping, "subroutineToLabel": lab, "options": B.options})
+        except Raised as r:
+            ctx.bad("R04.9", construct, f"a well-formed program dies in the pipeline: {r.exc_text[:90]}", fns["flattenSubroutines"].where)
+            continue
+        got = flat_program_traces(list(code), L)
+        ctx.check(got == want, "R04.9", construct, f"executions differ: only in the reference {sorted(want - got)[:2]}, only in the compiled program {sorted(got - want)[:2]}", fns["flattenSubroutines"].where, fact={"executions": len(want), "components": len(code), "routines": len(routines)})
+    ctx.require_min("R04.9", 8)
+
+
+import ast as _ast  # noqa: E402
+
+ast_Call = _ast.Call
